@@ -692,7 +692,7 @@ class _Merger(object):
                 self.posargs.append(existing)
                 _add_sources(self.src, existing.name, src)
                 _exclude_from_seq(self.varargs_src, o_varargs)
-            elif existing.default == existing.empty:
+            elif existing.default is existing.empty:
                 raise ValueError('Unmatched positional parameter: {0}'
                                  .format(existing))
         else:
@@ -729,7 +729,7 @@ class _Merger(object):
             self.pokargs[:] = []
             self.posargs.append(existing.replace(kind=existing.POSITIONAL_ONLY))
             _add_sources(self.src, existing.name, src)
-        elif existing.default == existing.empty:
+        elif existing.default is existing.empty:
             raise ValueError('Unmatched regular parameter: {0}'
                              .format(existing))
 
@@ -742,7 +742,7 @@ class _Merger(object):
             non_defaulted = [
                 arg
                 for arg in unmatched_kwoargs.values()
-                if arg.default == arg.empty
+                if arg.default is arg.empty
                 ]
             if non_defaulted:
                 raise ValueError(
@@ -751,7 +751,7 @@ class _Merger(object):
 
     def _concile_meta(self, left, right):
         default = left.empty
-        if left.default != left.empty and right.default != right.empty:
+        if left.default is not left.empty and right.default is not right.empty:
             if left.default == right.default:
                 default = left.default
             else:
@@ -762,14 +762,14 @@ class _Merger(object):
                 default = None
         annotation = left.empty
         upgraded_annotation = EmptyAnnotation
-        if left.annotation != left.empty and right.annotation != right.empty:
+        if left.annotation is not left.empty and right.annotation is not right.empty:
             if _same_annotation(left, right):
                 annotation = left.annotation
                 upgraded_annotation = left.upgraded_annotation
-        elif left.annotation != left.empty:
+        elif left.annotation is not left.empty:
             annotation = left.annotation
             upgraded_annotation = left.upgraded_annotation
-        elif right.annotation != right.empty:
+        elif right.annotation is not right.empty:
             annotation = right.annotation
             upgraded_annotation = right.upgraded_annotation
         return left.replace(default=default, annotation=annotation, upgraded_annotation=upgraded_annotation)
@@ -901,7 +901,7 @@ def _embed(outer, inner, use_varargs=True, use_varkwargs=True, depth=1):
         e_posargs.extend(i_posargs)
     else:
         _check_no_dupes(names, o_pokargs)
-        if i_pokargs and i_pokargs[0].default == i_pokargs[0].empty:
+        if i_pokargs and i_pokargs[0].default is i_pokargs[0].empty:
             e_posargs = list(_clear_defaults(e_posargs))
             e_pokargs.extend(_clear_defaults(o_pokargs))
         else:
